@@ -151,8 +151,11 @@ Print Assumptions C07_monitor_sound.
     ObjectSet, and the template is matched afterwards. *)
 Example C07_inv_satisfiable : Inv wit_w0.
 Proof. exact wit_w0_inv. Qed.
+Print Assumptions C07_inv_satisfiable.
 Example C07_history_ok : Forall ok_step [SDep false None; SDep false None; SSet false 100; SRev 100; SDep false None; SEdit 3 tmpl3; SStat 100 [] [] false].
 Proof. repeat constructor. Qed.
+Print Assumptions C07_history_ok.
 Example C07_fresh_creates_one :
   count_creates wit_hash no_slices false false wit_w0 [SDep false None; SDep false None; SRev 100; SDep false None] = 1%nat.
 Proof. exact wit_fresh_one_create. Qed.
+Print Assumptions C07_fresh_creates_one.
